@@ -363,7 +363,18 @@ impl<'a, 'ast> Visit<'ast> for Ctx<'a> {
         visit::visit_expr_let(self, e);
     }
     fn visit_expr_match(&mut self, e: &'ast syn::ExprMatch) {
-        if self.is_result_expr(&e.expr) && e.arms.iter().any(|a| pat_err_wild(&a.pat)) {
+        // a match whose arm `Err(ParserError::RecursionLimitExceeded) => <re-raises it>` precedes the
+        // wildcard error arm is limit-transparent: it cannot swallow the limit error
+        let wild_at = e.arms.iter().position(|a| pat_err_wild(&a.pat));
+        let reraise_at = e.arms.iter().position(|a| {
+            tokens_mention(a.pat.to_token_stream(), "RecursionLimitExceeded") > 0
+                && tokens_mention(a.pat.to_token_stream(), "Err") > 0
+                && a.guard.is_none()
+                && tokens_mention(a.body.to_token_stream(), "RecursionLimitExceeded") > 0
+                && tokens_mention(a.body.to_token_stream(), "Err") > 0
+        });
+        let transparent = matches!((wild_at, reraise_at), (Some(w), Some(r)) if r < w);
+        if self.is_result_expr(&e.expr) && wild_at.is_some() && !transparent {
             let s = Site {
                 file: self.file.clone(),
                 func: self.func.clone(),
